@@ -167,7 +167,7 @@ TITLES = ["a", "A", "b", "a 1", "id1", "b c", "Title *em*", "2024", "1"]
 def ids_case(draw):
     blocks = []
     for _ in range(draw(st.integers(2, 9))):
-        k = draw(st.integers(0, 18))
+        k = draw(st.integers(0, 19))
         nm = draw(st.sampled_from(NAMES))
         lab = nm.replace(" ", "-")
         if k == 0:
@@ -209,6 +209,9 @@ def ids_case(draw):
             failing = draw(st.sampled_from(["[obj](inv:#nosuch-object)", "[obj](inv:a:b:c:d:e#x)", "[obj](inv:nokey#x)", "{unknownrole}`x`",
                                             "![i](<>)", "[t](project:nosuch.md)"]))
             blocks.append(f"{failing}{{#{lab}}} then [to it](#{lab}) and [](#{lab})")
+        elif k == 19:
+            # one substitution used several times, its value carrying constructs that register with the document
+            blocks.append("{{ fnsub }} and again {{ fnsub }}, {{ plainsub }} {{ plainsub }}\n\n{{ blocksub }}\n\n{{ blocksub }}\n\n[^subfn]: footnote of the substitution")
         elif k == 17:
             # a line block with nested (more deeply indented) lines: nested line_block nodes are built by hand
             blocks.append(draw(st.sampled_from([
@@ -228,7 +231,8 @@ def ids_case(draw):
             d = draw(st.sampled_from(["only} html", "only} latex or html", "ifconfig} True", "only} html"]))
             blocks.append("````{" + d + "\n" + "#" * draw(st.integers(1, 3)) + " " + t + "\n\ninner text\n\n" + "#" * draw(st.integers(2, 4))
                           + " " + draw(st.sampled_from(TITLES)) + "\n````")
-    cfg = {"enable_extensions": ["attrs_block", "attrs_inline", "dollarmath", "colon_fence", "html_image", "html_admonition"],
+    cfg = {"enable_extensions": ["attrs_block", "attrs_inline", "dollarmath", "colon_fence", "html_image", "html_admonition", "substitution"],
+           "substitutions": {"fnsub": "see [^subfn]", "plainsub": "*plain* `value`", "blocksub": "- item [^subfn]\n- two"},
            "heading_anchors": draw(st.sampled_from([0, 2, 3])), "footnote_sort": draw(st.booleans())}
     return {"gen": "ids", "text": "\n\n".join(blocks) + "\n", "cfg": cfg}
 
